@@ -343,3 +343,51 @@ digit_zero_mp!(c03_q_digit_zero_3_mp, 3);
 single_route_shape!(c03_q_single_ref_2, BY_REF, 2);
 single_route_shape!(c03_q_single_val_2, BY_VAL, 2);
 single_route_shape!(c03_q_single_val_1, BY_VAL, 1);
+
+// The Knuth-D core itself, REAL code, with a CONCRETE (pinned) two-digit normalised divisor and an arbitrary three-digit dividend:
+// every multiplication in the core and in the oracle is then symbolic x constant. Two quotient digits, so the second round starts
+// with a carried top digit a0 (possibly a0 == b0: the saturated-estimate branch). div_wide (asm) is under its exact product contract,
+// which with a constant divisor is linear. Oracle: r < b and q * b + r == a in a 4-word window.
+fn div_wide_product_contract(hi: u64, lo: u64, divisor: u64) -> (u64, u64) {
+    kani::assert(divisor != 0, "VERIF div_wide: divisor is zero (#DE)");
+    kani::assert(hi < divisor, "VERIF div_wide: hi >= divisor (#DE quotient overflow)");
+    let q: u64 = kani::any();
+    let r: u64 = kani::any();
+    kani::assume(r < divisor);
+    kani::assume((q as u128) * (divisor as u128) + (r as u128) == (((hi as u128) << 64) | lo as u128));
+    (q, r)
+}
+macro_rules! core_pinned_shape {
+    ($name:ident, $b1:expr, $b0:expr, $pre:expr) => {
+        #[kani::proof]
+        #[kani::unwind(8)]
+        #[kani::stub(div_wide, div_wide_product_contract)]
+        #[kani::stub(alloc::vec::Vec::shrink_to_fit, vc::noop_shrink)]
+        #[kani::stub(core::arch::x86_64::_addcarry_u64, vc::stub_addcarry)]
+        #[kani::stub(crate::biguint::addition::schoolbook_add_assign_x86_64, vc::model_add)]
+        fn $name() {
+            let a0: [u64; 3] = vc::any_canon::<3>();
+            kani::assume(($pre)(&a0));
+            let b: [u64; 2] = [$b1, $b0];
+            let (q, r) = div_rem_core(vc::mk_from(&a0), &b);
+            kani::assert(vc::is_canonical(&q) && vc::is_canonical(&r), "VERIF div_rem_core result not canonical");
+            kani::assert(vc::ref_cmp(vc::digits(&r), &b) < 0, "VERIF div_rem_core remainder is not below the divisor");
+            let qd = [vc::dig(vc::digits(&q), 0), vc::dig(vc::digits(&q), 1)];
+            kani::assert(vc::digits(&q).len() <= 2, "VERIF div_rem_core quotient too long");
+            let prod = vc::ref_mul::<4>(&qd, &b);
+            let (sum, carry) = vc::ref_add::<4>(&prod, vc::digits(&r));
+            kani::assert(!carry && vc::eq_window(&sum, &a0), "VERIF div_rem_core: q * b + r != a");
+        }
+    };
+}
+// b0 < b1 (the carried digit can equal b0 while the next one is small), all-ones divisor, minimal normalised divisor.
+// Arbitrary three-digit dividends are a divider-verification problem that did not finish in 240 s except for the sparsest divisor
+// (thorough tier); the quick tier pins the TOP dividend digit to b0, which is exactly the class in which the second round can start
+// with a0 == b0 (first quotient digit 0 or 1, saturated estimate in the second round), the two lower digits arbitrary.
+core_pinned_shape!(c03_q_core_pinned_8000_0001, 0x0000_0000_0000_0001, 0x8000_0000_0000_0000, |_a: &[u64; 3]| true);
+core_pinned_shape!(c03_q_core_top_8000_ffff, 0xFFFF_FFFF_FFFF_FFFF, 0x8000_0000_0000_0000, |a: &[u64; 3]| a[2] == 0x8000_0000_0000_0000);
+core_pinned_shape!(c03_q_core_top_ffff_ffff, 0xFFFF_FFFF_FFFF_FFFF, 0xFFFF_FFFF_FFFF_FFFF, |a: &[u64; 3]| a[2] == 0xFFFF_FFFF_FFFF_FFFF);
+core_pinned_shape!(c03_q_core_top_c3a5_9e37, 0x9E37_79B9_7F4A_7C15, 0xC3A5_C85C_97CB_3127, |a: &[u64; 3]| a[2] == 0xC3A5_C85C_97CB_3127);
+core_pinned_shape!(c03_t_core_pinned_8000_ffff, 0xFFFF_FFFF_FFFF_FFFF, 0x8000_0000_0000_0000, |_a: &[u64; 3]| true);
+core_pinned_shape!(c03_t_core_pinned_ffff_ffff, 0xFFFF_FFFF_FFFF_FFFF, 0xFFFF_FFFF_FFFF_FFFF, |_a: &[u64; 3]| true);
+core_pinned_shape!(c03_t_core_pinned_c3a5_9e37, 0x9E37_79B9_7F4A_7C15, 0xC3A5_C85C_97CB_3127, |_a: &[u64; 3]| true);
